@@ -91,6 +91,64 @@ def build_parsers(fns):
     return out
 
 
+def build_accept(fns):
+    """CasObjectInfoV1::deserialize: a footer is accepted (Ok) only with the current format / section versions and
+    with the three chunk counts equal."""
+    from props.c15 import struct_fields
+    f = mir.find_fn(fns, r"cas_object_format::<impl at cas_object/src/cas_object_format.rs:3\d\d[^>]*>::deserialize$")
+    fld = struct_fields(os.path.join(REPO, "cas_object/src/cas_object_format.rs"), "CasObjectInfoV1")
+    symex.Sym.CONSTS = symex.const_table([os.path.join(REPO, "cas_object/src/cas_object_format.rs"), os.path.join(REPO, "merkledb/src/constants.rs")])
+    C = symex.Sym.CONSTS
+    for need in ("CAS_OBJECT_FORMAT_VERSION", "CAS_OBJECT_FORMAT_HASHES_VERSION", "CAS_OBJECT_FORMAT_BOUNDARIES_VERSION"):
+        if need not in C:
+            raise LookupError("constant %s not found" % need)
+    models = dict(symex.STD_MODELS)
+    models[r"prealloc_num_chunks$"] = m_prealloc
+    s = symex.Sym(f, prefix="ok.", models=models, max_visits=2)
+    sloc = symex.parse_place(f.debug["s"][0])[1]
+    paths = [p for p in s.run("bb0", max_paths=60000) if p.end == "return"]
+    okp = [p for p in paths if not any(re.search(r"from_residual$|format_err$|deserialize_v0", e[0]) for e in p.events)]
+    if not okp:
+        raise LookupError("no accepting path found")
+    sc = smt.Script("c08_footer_accept_conditions")
+    seen = set()
+    for i, p in enumerate(okp):
+        vals = {}
+        for name in ("version", "hashes_version", "boundaries_version"):
+            vals[name] = s.load(p, ("field", ("local", sloc), fld[name], "u8"), "u8").t
+        sig = tuple(p.pc)
+        if sig in seen:
+            continue
+        seen.add(sig)
+        sc.query("an accepted footer has the current format version [path %d]" % i, p.pc + [mk_not(mk_eq(vals["version"], bvconst(C["CAS_OBJECT_FORMAT_VERSION"][0], 8)))])
+        sc.query("an accepted footer has the current hash-section version [path %d]" % i, p.pc + [mk_not(mk_eq(vals["hashes_version"], bvconst(C["CAS_OBJECT_FORMAT_HASHES_VERSION"][0], 8)))])
+        sc.query("an accepted footer has the current boundary-section version [path %d]" % i, p.pc + [mk_not(mk_eq(vals["boundaries_version"], bvconst(C["CAS_OBJECT_FORMAT_BOUNDARIES_VERSION"][0], 8)))])
+        sc.query("witness: accepting path feasible [path %d]" % i, p.pc, expect="sat", kind="witness")
+    sc.declare(s.decls)
+    return [sc]
+
+
+def build_stream_validator(fns):
+    """_validate_cas_object_from_async_read: every accepting return has compared the hash recomputed from the chunks
+    with the hash being validated."""
+    from mirsym import modeb
+    g = modeb.CFG(mir.find_fn(fns, r"validate_xorb_stream::_validate_cas_object_from_async_read::\{closure#0\}$"))
+    cmp_ = g.blocks_calling(r"<(merklehash::)?DataHash as PartialEq>::(ne|eq)$|as PartialEq<.*DataHash>>::(ne|eq)$")
+    oks = [b for b in g.nodes if any(re.search(r"= (std::result::)?Result::<.*>::Ok\(", st) for st in g.fn.blocks[b][0])]
+    root = g.blocks_calling(r"MerkleMemDB|merkledb|hash_node_sequence|cas_node_hash|MerkleDBHighLevelMethodsV1|::finalize$|::merge")
+    if not cmp_ or not oks:
+        raise LookupError("stream validator shape not recognised: compares=%s ok-blocks=%s" % (cmp_, oks))
+    sc = smt.Script("c08_stream_validator_compares_root")
+    # the last hash comparison before an accepting return is the one on the recomputed root: require that EVERY accepting
+    # return is preceded by a hash comparison that itself follows the last chunk being read (the chunk loop's exit)
+    ch = g.blocks_calling(r"deserialize_chunk|parse_chunk_header|chunk_hash|compute_data_hash")
+    modeb.no_path_query(g, sc, "accept only after a hash comparison", [g.entry], oks, cmp_)
+    if ch:
+        modeb.no_path_query(g, sc, "accept only after a hash comparison made after the last chunk was hashed", modeb.after(g, ch), oks, cmp_)
+    modeb.no_path_query(g, sc, "witness: accepting return reachable", [g.entry], oks, [], expect="sat", kind="witness")
+    return [sc]
+
+
 def replay(model, fnd, prop):
     env = base_env()
     env["CARGO_TARGET_DIR"] = os.path.join(BUILD, "replay_target")
@@ -105,7 +163,25 @@ def replay(model, fnd, prop):
     return None, path, "native replay inconclusive (rc=%s)" % rc
 
 
-SMT = [Q("c08_footer_parsers", "footer parsers: no overflow panic, bounded allocation, on arbitrary field values", "cas_object", build_parsers,
+def replay_accept(model, fnd, prop):
+    env = base_env()
+    env["CARGO_TARGET_DIR"] = os.path.join(BUILD, "replay_target")
+    rc, out = sh(["cargo", "test", "--offline", "--test", "c08_validator_acceptance"], cwd=os.path.join(VERIF, "replay"), env=env, timeout=2400,
+                 log=os.path.join(LOGS, "replay_c08_accept.log"))
+    path = os.path.join(VERIF, "replay", "tests", "c08_validator_acceptance.rs")
+    if "test result: FAILED" in out:
+        m = re.search(r"C08 violated: [^\n]*", out)
+        return True, path, m.group(0)[:240] if m else "native replay fails"
+    if re.search(r"test result: ok. [1-9]\d* passed", out):
+        return False, path, "native replay passes: forged footers are rejected by both validators"
+    return None, path, "native replay inconclusive (rc=%s)" % rc
+
+
+SMT = [Q("c08_footer_accept", "a footer is accepted only with current versions", "cas_object", build_accept,
+         functions=["cas_object::cas_object_format::CasObjectInfoV1::deserialize (accepting paths)"], bounds="loops entered at most once", replay=replay_accept, timeout=600),
+       Q("c08_stream_validator", "stream validator accepts only after comparing the recomputed root", "cas_object", build_stream_validator,
+         functions=["cas_object::validate_xorb_stream::_validate_cas_object_from_async_read"], bounds="all CFG paths", replay=replay_accept, solvers=("z3", "cvc5-bv")),
+       Q("c08_footer_parsers", "footer parsers: no overflow panic, bounded allocation, on arbitrary field values", "cas_object", build_parsers,
          functions=["cas_object::cas_object_format::CasObjectInfoV1::{deserialize, deserialize_only_boundaries_section}", "CasObjectInfoV0::deserialize_v0",
                     "CasObject::get_info_length", "prealloc_num_chunks"], bounds="loops entered at most once", replay=replay, timeout=600)]
 _st = ["alloc::fmt::format", "core::fmt::write", "std::backtrace::Backtrace::capture"]
